@@ -28,6 +28,7 @@ import (
 	"github.com/projecteru2/core/types"
 	clientv3 "go.etcd.io/etcd/client/v3"
 	"go.etcd.io/etcd/client/v3/concurrency"
+	"go.etcd.io/etcd/tests/v3/integration"
 	"google.golang.org/grpc/codes"
 	"google.golang.org/grpc/status"
 )
@@ -187,33 +188,52 @@ func ClassifyFail(op string, err error, panicked bool) string {
 	return "FOther"
 }
 
-// CtxState waits at most [wait] for the context returned by Lock/TryLock to be
-// done and canonicalises its state.
+// CtxState waits at most [wait] for Done() of the context returned by
+// Lock/TryLock and canonicalises what an observer then sees (LockLog.cerr):
+//
+//	CtxSessionDone  Done() is closed and Err() is ErrLockSessionDone
+//	CtxErrOpen      Err() already reports ErrLockSessionDone but Done() is not
+//	                closed (the etcd lockContext's Err() can report the error
+//	                before the context is cancelled: the holder is not woken up)
+//	CtxLive         Done() not closed, Err() == nil
+//	CtxOther        anything else
 func CtxState(ctx context.Context, wait time.Duration) string {
 	if ctx == nil {
 		return "CtxOther"
 	}
-	done := false
-	if wait <= 0 {
-		select {
-		case <-ctx.Done():
-			done = true
-		default:
+	closed := func(grace time.Duration) bool {
+		if grace <= 0 {
+			select {
+			case <-ctx.Done():
+				return true
+			default:
+				return false
+			}
 		}
-	} else {
-		tm := time.NewTimer(wait)
+		tm := time.NewTimer(grace)
 		defer tm.Stop()
 		select {
 		case <-ctx.Done():
-			done = true
+			return true
 		case <-tm.C:
+			return false
 		}
 	}
-	if !done {
-		return "CtxLive"
+	done := closed(wait)
+	err := ctx.Err()
+	sessionDone := errors.Is(err, types.ErrLockSessionDone)
+	if !done && sessionDone {
+		// setError and the deferred cancel are two steps of the watcher
+		// goroutine: do not mistake the instant between them for "not woken up"
+		done = closed(10 * time.Millisecond)
 	}
-	if errors.Is(ctx.Err(), types.ErrLockSessionDone) {
+	switch {
+	case done && sessionDone:
 		return "CtxSessionDone"
+	case !done && sessionDone:
+		return "CtxErrOpen"
+	case !done && err == nil:
+		return "CtxLive"
 	}
 	return "CtxOther"
 }
@@ -487,6 +507,108 @@ func (r *EtcdRun) Finish() (muts []Mut, err error) {
 					return nil, fmt.Errorf("watch: unknown lease in key %q", k)
 				}
 				muts = append(muts, Mut{Put: ev.Type == clientv3.EventTypePut, I: i})
+			}
+		}
+	}
+}
+
+// ---------------------------------------------------------------- etcd behind a bridge (partition runs)
+
+// Bridged is a second single-member integration cluster whose client traffic
+// goes through a bridge that can be black-holed (network partition).  It must
+// be created after NewEtcd (which puts the test into etcd's integration test
+// context; BeforeTestExternal may be called only once per test).
+type Bridged struct {
+	Clus *integration.ClusterV3
+	Cli  *clientv3.Client // not namespaced
+}
+
+func NewBridged(t *testing.T) (*Bridged, error) {
+	// The integration framework names a member's unix sockets after the member
+	// ("localhost:m0", bridge "localhost:m00") RELATIVE to the working
+	// directory, so a second cluster needs its own directory, and the bridge
+	// re-dials the member by that relative name after every heal: the working
+	// directory stays this one for the rest of the test (BeforeTest's cleanup
+	// restores the original one).  The first cluster's client is already
+	// connected and does not re-dial.
+	if err := os.Chdir(t.TempDir()); err != nil {
+		return nil, err
+	}
+	clus := integration.NewClusterV3(t, &integration.ClusterConfig{Size: 1, UseBridge: true})
+	t.Cleanup(func() { clus.Terminate(t) })
+	return &Bridged{Clus: clus, Cli: clus.RandClient()}, nil
+}
+
+func (b *Bridged) Blackhole()   { b.Clus.Members[0].Bridge().Blackhole() }
+func (b *Bridged) Unblackhole() { b.Clus.Members[0].Bridge().Unblackhole() }
+
+// Revision is the current store revision (to be recorded before a run).
+func (b *Bridged) Revision(pfx string) (int64, error) {
+	ctx, cancel := context.WithTimeout(context.Background(), 10*time.Second)
+	defer cancel()
+	resp, err := b.Cli.Get(ctx, pfx, clientv3.WithPrefix(), clientv3.WithCountOnly())
+	if err != nil {
+		return 0, err
+	}
+	if resp.Count != 0 {
+		return 0, fmt.Errorf("lock prefix %s not empty", pfx)
+	}
+	return resp.Header.Revision, nil
+}
+
+// History reads, after the partition is healed, the mutations of the keys
+// under pfx since startRev as OBSERVED through a watch from that revision (etcd
+// keeps the history, so the PUT and the lease-expiry DELETE that happened
+// during the partition are replayed).  It first waits (at most 10 s) until no
+// key is left under the prefix, then uses the sentinel technique.  Single
+// contender: every key under the prefix belongs to contender 0.
+func (b *Bridged) History(pfx string, startRev int64) (muts []Mut, err error) {
+	ctx, cancel := context.WithTimeout(context.Background(), 25*time.Second)
+	defer cancel()
+	gone := false
+	for dl := time.Now().Add(10 * time.Second); time.Now().Before(dl); time.Sleep(100 * time.Millisecond) {
+		gctx, gcancel := context.WithTimeout(ctx, 2*time.Second)
+		resp, gerr := b.Cli.Get(gctx, pfx, clientv3.WithPrefix(), clientv3.WithCountOnly())
+		gcancel()
+		if gerr == nil && resp.Count == 0 {
+			gone = true
+			break
+		}
+	}
+	if !gone {
+		return nil, errors.New("history: lock key still present 10 s after the heal")
+	}
+	sentinel := pfx + "zz-sentinel"
+	if _, err = b.Cli.Put(ctx, sentinel, ""); err != nil {
+		return nil, err
+	}
+	defer func() {
+		dctx, dcancel := context.WithTimeout(context.Background(), 5*time.Second)
+		defer dcancel()
+		_, _ = b.Cli.Delete(dctx, sentinel)
+	}()
+	wctx, wcancel := context.WithCancel(ctx)
+	defer wcancel()
+	wch := b.Cli.Watch(wctx, pfx, clientv3.WithPrefix(), clientv3.WithRev(startRev+1))
+	for {
+		select {
+		case <-ctx.Done():
+			return nil, errors.New("history: sentinel not delivered")
+		case wr, ok := <-wch:
+			if !ok {
+				return nil, errors.New("history: watch channel closed")
+			}
+			if werr := wr.Err(); werr != nil {
+				return nil, werr
+			}
+			for _, ev := range wr.Events {
+				if string(ev.Kv.Key) == sentinel {
+					if ev.Type == clientv3.EventTypePut {
+						return muts, nil
+					}
+					continue
+				}
+				muts = append(muts, Mut{Put: ev.Type == clientv3.EventTypePut, I: 0})
 			}
 		}
 	}
